@@ -1005,6 +1005,9 @@ class Tifa(TifaCore, ast.NodeVisitor):
 
     def visit_Constant(self, node) -> Type:
         """ Handle new 3.8's Constant node """
+        if node.value is Ellipsis or isinstance(node.value, bytes):
+            # No Pedal type for these; evaluate_type() below only understands AST nodes
+            return AnyType()
         return get_pedal_type_from_value(node.value, self.evaluate_type)
 
     def visit_Return(self, node):
